@@ -113,3 +113,25 @@ Fixpoint insert_sorted (n : node) (l : list node) : list node :=
   | m :: r => if bytes_ltb (nkey m) (nkey n) then m :: insert_sorted n r else n :: l
   end.
 Definition sort_nodes (l : list node) : list node := fold_right insert_sorted [] l.
+
+(* ---------- roots.methodIndex (node.go:18-37) ---------- *)
+Definition roots := list node.
+
+Definition m_get := S2B "GET". Definition m_post := S2B "POST".
+Definition m_put := S2B "PUT". Definition m_delete := S2B "DELETE".
+Definition common_verbs : list bytes := [m_get; m_post; m_put; m_delete].
+
+Fixpoint find_key_from (i : nat) (m : bytes) (l : list node) : option nat :=
+  match l with
+  | [] => None
+  | x :: r => if bytes_eqb (nkey x) m then Some i else find_key_from (S i) m r
+  end.
+
+Definition method_index (r : roots) (m : bytes) : option nat :=
+  if bytes_eqb m m_get then Some 0
+  else if bytes_eqb m m_post then Some 1
+  else if bytes_eqb m m_put then Some 2
+  else if bytes_eqb m m_delete then Some 3
+  else find_key_from 4 m (skipn 4 r).
+
+Definition is_removable (m : bytes) : bool := negb (existsb (bytes_eqb m) common_verbs).
